@@ -717,7 +717,7 @@ func product(t *testing.T, rec *stats.Recorder, mount string, every int, space s
 	for _, ft := range family() {
 		tk := hx.J(ft.roots)
 		for _, p := range pathShapes(ft.roots) {
-			if mount == "mux" && (p == "" || strings.Contains(p, "//") || strings.Contains(p, "..")) {
+			if (mount == "mux" || mount == "prefix-mux") && (p == "" || strings.Contains(p, "//") || strings.Contains(p, "..")) {
 				continue // ServeMux redirects paths it considers unclean; not Rest.li routing
 			}
 			for _, v := range verbs {
